@@ -356,6 +356,10 @@ class DynGraph(nx.Graph):
             raise ValueError("The specified interaction extension is broader than "
                              "the ones already present for the given nodes.")
 
+        # a vanishing time that does not follow t describes an empty span: there is nothing to add
+        if e is not None and self.edge_removal and e <= t[0]:
+            return
+
         # the pair is unordered: keep logging its events under the orientation of its first appearance
         if u in self._adj and v in self._adj[u] and \
                 (v, u, "+") in self.time_to_edge[self._adj[u][v]['t'][0][0]]:
